@@ -100,6 +100,48 @@ impl_fx!(FixedU64, LeEqU64, u64, false, 64);
 impl_fx!(FixedI128, LeEqU128, i128, true, 128);
 impl_fx!(FixedU128, LeEqU128, u128, false, 128);
 
+/// sign-specific methods, None when the API does not provide them for this signedness
+pub trait FxSign: Fx {
+    fn w_abs(_x: sf::Wrapping<Self>) -> Option<sf::Wrapping<Self>> { None }
+    fn w_signum(_x: sf::Wrapping<Self>) -> Option<sf::Wrapping<Self>> { None }
+    fn w_npot(_x: sf::Wrapping<Self>) -> Option<sf::Wrapping<Self>> { None }
+    fn w_is_neg(_x: sf::Wrapping<Self>) -> Option<bool> { None }
+    fn w_is_pow2(_x: sf::Wrapping<Self>) -> Option<bool> { None }
+    fn p_neg(_x: Self) -> Option<Self> { None }
+    fn p_abs(_x: Self) -> Option<Self> { None }
+    fn p_signum(_x: Self) -> Option<Self> { None }
+    fn p_npot(_x: Self) -> Option<Self> { None }
+}
+macro_rules! impl_sign {
+    (signed $Fixed:ident, $LeEq:ident) => {
+        impl<Fr: $LeEq + 'static> FxSign for $Fixed<Fr> {
+            fn w_abs(x: sf::Wrapping<Self>) -> Option<sf::Wrapping<Self>> { Some(x.abs()) }
+            fn w_signum(x: sf::Wrapping<Self>) -> Option<sf::Wrapping<Self>> { Some(x.signum()) }
+            fn w_is_neg(x: sf::Wrapping<Self>) -> Option<bool> { Some(x.is_negative()) }
+            fn p_neg(x: Self) -> Option<Self> { Some(-x) }
+            fn p_abs(x: Self) -> Option<Self> { Some(x.abs()) }
+            fn p_signum(x: Self) -> Option<Self> { Some(x.signum()) }
+        }
+    };
+    (unsigned $Fixed:ident, $LeEq:ident) => {
+        impl<Fr: $LeEq + 'static> FxSign for $Fixed<Fr> {
+            fn w_npot(x: sf::Wrapping<Self>) -> Option<sf::Wrapping<Self>> { Some(x.next_power_of_two()) }
+            fn w_is_pow2(x: sf::Wrapping<Self>) -> Option<bool> { Some(x.is_power_of_two()) }
+            fn p_npot(x: Self) -> Option<Self> { Some(x.next_power_of_two()) }
+        }
+    };
+}
+impl_sign!(signed FixedI8, LeEqU8);
+impl_sign!(signed FixedI16, LeEqU16);
+impl_sign!(signed FixedI32, LeEqU32);
+impl_sign!(signed FixedI64, LeEqU64);
+impl_sign!(signed FixedI128, LeEqU128);
+impl_sign!(unsigned FixedU8, LeEqU8);
+impl_sign!(unsigned FixedU16, LeEqU16);
+impl_sign!(unsigned FixedU32, LeEqU32);
+impl_sign!(unsigned FixedU64, LeEqU64);
+impl_sign!(unsigned FixedU128, LeEqU128);
+
 #[derive(Clone, Copy, Debug, PartialEq, Eq, Hash)]
 pub struct Lay {
     pub s: bool,
